@@ -150,8 +150,16 @@ class FunctionThrow : public Function
 {
 public:
     virtual XObjectPtr
-    execute(XPathExecutionContext& ctx, XalanNode*, const XObjectArgVectorType&, const Locator*) const
+    execute(XPathExecutionContext& ctx, XalanNode*, const XObjectArgVectorType& args, const Locator*) const
     {
+        if (args.size() >= 1)
+        {
+            // inj:throw('Class'): the class is named by the stylesheet
+            const XalanDOMString& n = args[0]->str(ctx);
+            std::string cls;
+            for (XalanDOMString::size_type i = 0; i < n.length(); ++i) cls.push_back(char(n[i]));
+            throwNamed(cls, false);
+        }
         throwNamed(g_injectClass, g_injectEmpty);
         return ctx.getXObjectFactory().createNumber(0);
     }
@@ -263,6 +271,85 @@ static int xsltMode()
                 guarded([&] { T.clearStylesheetParams(); });
                 const std::string out = os.str();
                 reply(rc, ml, esc, followUp(T), &out);
+            }
+            else if (cmd == "xr" && a.size() >= 2)
+            {
+                // like xf, and the same request on a fresh transformer: a transformer that has a history must give the same answer
+                const std::string sty = unhex(a[0]), src = unhex(a[1]);
+                int rc = -99, rcRef = -99;
+                std::ostringstream os, osRef;
+                std::string esc = guarded([&] {
+                    std::istringstream xs(src), ss(sty);
+                    rc = T.transform(XSLTInputSource(xs), XSLTInputSource(ss), XSLTResultTarget(os));
+                });
+                const size_t ml = msgLen(T);
+                std::string escRef = guarded([&] {
+                    XalanTransformer F;
+                    F.setWarningStream(0);
+                    std::istringstream xs(src), ss(sty);
+                    rcRef = F.transform(XSLTInputSource(xs), XSLTInputSource(ss), XSLTResultTarget(osRef));
+                });
+                const std::string out = os.str();
+                const bool same = esc == escRef && rc == rcRef && (rc != 0 || out == osRef.str());
+                std::cout << "rc=" << rc << " msg=" << ml << " esc=" << esc << " fu=" << (followUp(T) ? 1 : 0) << " ref=" << (same ? 1 : 0)
+                          << " out=" << tohex(out.size() > 4096 ? out.substr(0, 4096) : out);
+                if (!same) std::cout << " refout=" << tohex(osRef.str().substr(0, 2048)) << " refrc=" << rcRef;
+                g_lastMsg.clear();
+                std::cout << std::endl;
+            }
+            else if (cmd == "xs" && a.size() >= 4)
+            {
+                // ONE compiled stylesheet and ONE parsed source, used twice on T: first with parameter set A (which may make the
+                // transformation abort half-way: inside an attribute set, a sort, a key, xsl:number …), then with set B.  The second
+                // run must equal what a fresh transformer produces for B.   xs <sty> <src> <A: n=e,n=e|-> <B: …>
+                const std::string sty = unhex(a[0]), src = unhex(a[1]);
+                auto setParams = [&](XalanTransformer& t, const std::string& spec) {
+                    t.clearStylesheetParams();
+                    if (spec == "-") return;
+                    std::istringstream ps(spec);
+                    for (std::string kv; std::getline(ps, kv, ',');)
+                    {
+                        const size_t eq = kv.find('=');
+                        if (eq != std::string::npos) t.setStylesheetParam(unhex(kv.substr(0, eq)).c_str(), unhex(kv.substr(eq + 1)).c_str());
+                    }
+                };
+                int rcC = -99, rc1 = -99, rc2 = -99, rcRef = -99;
+                size_t ml1 = 0, ml2 = 0;
+                std::ostringstream os1, os2, osRef;
+                std::string esc = guarded([&] {
+                    const XalanCompiledStylesheet* cs = 0;
+                    const XalanParsedSource* ps = 0;
+                    std::istringstream ss(sty), xs(src);
+                    rcC = T.compileStylesheet(XSLTInputSource(ss), cs);
+                    if (rcC != 0) { ml1 = msgLen(T); return; }
+                    rcC = T.parseSource(XSLTInputSource(xs), ps);
+                    if (rcC != 0) { ml1 = msgLen(T); T.destroyStylesheet(cs); return; }
+                    setParams(T, a[2]);
+                    rc1 = T.transform(*ps, cs, XSLTResultTarget(os1));
+                    ml1 = msgLen(T);
+                    setParams(T, a[3]);
+                    rc2 = T.transform(*ps, cs, XSLTResultTarget(os2));
+                    ml2 = msgLen(T);
+                    T.clearStylesheetParams();
+                    T.destroyParsedSource(ps);
+                    T.destroyStylesheet(cs);
+                });
+                std::string escRef = guarded([&] {
+                    XalanTransformer F;
+                    F.setWarningStream(0);
+                    F.installExternalFunction(XalanDOMString("urn:c03"), XalanDOMString("throw"), fthrow);
+                    setParams(F, a[3]);
+                    std::istringstream xs(src), ss(sty);
+                    rcRef = F.transform(XSLTInputSource(xs), XSLTInputSource(ss), XSLTResultTarget(osRef));
+                });
+                guarded([&] { T.clearStylesheetParams(); });
+                const bool same = rcC != 0 || (rc2 == rcRef && (rc2 != 0 || os2.str() == osRef.str()));
+                std::cout << "rc=" << (rcC != 0 ? rcC : rc1) << " msg=" << ml1 << " esc=" << esc << " fu=" << (followUp(T) ? 1 : 0)
+                          << " rc2=" << rc2 << " msg2=" << ml2 << " ref=" << (same ? 1 : 0) << " refrc=" << rcRef << " cmp=" << (rcC == 0 ? 1 : 0);
+                if (!same) std::cout << " out2=" << tohex(os2.str().substr(0, 1024)) << " refout=" << tohex(osRef.str().substr(0, 1024));
+                if (!g_lastMsg.empty()) std::cout << " err=" << tohex(g_lastMsg);
+                g_lastMsg.clear();
+                std::cout << std::endl;
             }
             else if (cmd == "xc" && a.size() >= 2)
             {
